@@ -208,6 +208,14 @@ EscapeAt(lv) ==
   IF own # <<>> THEN [at |-> own[1].at, depth |-> 1]
   ELSE IF lv.sub.set /\ ~lv.sub.ext THEN (LET d == EscapeAt(lv.sub.lv) IN [at |-> d.at, depth |-> IF d.at = 0 THEN 0 ELSE d.depth + 1])
   ELSE [at |-> 0, depth |-> 0]
+\* the values `v` are the tokens `t` in order, where only tokens equal to a declared value terminator may be missing
+\* (DevTerminatorAfterEscape: a positional's value_terminator still terminates - and is dropped - after `--`; whether a
+\* given occurrence of that text was the sentinel or an ordinary value of another positional is not prescribed here)
+RECURSIVE MatchDroppingTerms(_, _, _)
+MatchDroppingTerms(t, v, terms) ==
+  IF t = <<>> THEN v = <<>>
+  ELSE \/ (v # <<>> /\ Head(t) = Head(v) /\ MatchDroppingTerms(Tail(t), Tail(v), terms))
+       \/ (Head(t) \in terms /\ MatchDroppingTerms(Tail(t), v, terms))
 P05(def, argv, obs, top) ==
   LET esc == EscapeAt(top) IN
   (obs.outcome = "Ok" /\ ~def.s.ignore_errors /\ esc.at # 0 /\ esc.depth <= Len(CmdChain(Build(def, NoInherit), obs.chain, 1))
@@ -234,11 +242,14 @@ P05(def, argv, obs, top) ==
            THEN \* a declared delimiter may split tail values; their concatenation is still the tail
                 \E m \in 0..Len(allVals) : Concat(SubSeq(allVals, Len(allVals) - m + 1, Len(allVals)))
                       = Concat([k \in 1..n |-> SelectSeq(tail[k], LAMBDA x : \A q \in 1..Len(poss) : x # poss[q].delim)])
-           ELSE /\ Len(allVals) >= n /\ SubSeq(allVals, Len(allVals) - n + 1, Len(allVals)) = tail
+           ELSE LET rawTail == SubSeq(argv, esc.at + 1, Len(argv))
+                    terms == {poss[q].term : q \in {j \in 1..Len(poss) : poss[j].term # <<>>}}
+                IN
+                /\ \E m \in 0..Len(allVals) : MatchDroppingTerms(rawTail, SubSeq(allVals, Len(allVals) - m + 1, Len(allVals)), terms)
                 \* a `last(true)` positional is the one "only able to be accessed via the `--` syntax": with one
                 \* defined, the tail is exactly what it received (in order; no tail token leaks into an earlier positional)
                 /\ \A k \in 1..Len(poss) : poss[k].last /\ n > 0 =>
-                      EHas(E, poss[k].id) /\ EGet(E, poss[k].id).src = "cli" /\ Concat(EGet(E, poss[k].id).occ) = tail
+                      EHas(E, poss[k].id) /\ EGet(E, poss[k].id).src = "cli" /\ MatchDroppingTerms(rawTail, Concat(EGet(E, poss[k].id).occ), terms)
 
 \* ---- C09: chain and globals --------------------------------------------------------------------
 GlobalsAgree(def, obs) ==
